@@ -1,7 +1,8 @@
 (* C25 -- Text string literals encode arbitrary bytes losslessly.
    Statements only; each closed by [exact] of a lemma proved in Text/*P.v. *)
 From Coq Require Import List NArith ZArith.
-From PB Require Import Base.PBytes Base.Utf8Model Text.TextStrModel Text.TextStrP.
+From PB Require Import Base.PBytes Base.Utf8Model Wire.WireModel Text.TextStrModel Text.TextStrP
+  Text.TextUnknownModel Text.TextUnknownP.
 Import ListNotations.
 Open Scope N_scope.
 
@@ -31,6 +32,30 @@ Theorem C25_append_string_fast_path :
 Proof. exact append_string_eq. Qed.
 Print Assumptions C25_append_string_fast_path.
 
+(* EmitUnknown: the Encoder (prepareNext's un-indenting slice) cannot panic on
+   the call sequences marshalUnknown makes, in single-line and multi-line mode *)
+Theorem C25_render_toks_total :
+  forall c ts, wf_toks ts ->
+  exists s', render_toks c {| es_last := TZero; es_indents := []; es_out := [] |} ts = Some s'.
+Proof. exact render_toks_total. Qed.
+Print Assumptions C25_render_toks_total.
+
+(* EmitUnknown is total (no Panic outcome) on every well-formed unknown-field
+   set.  PARTIAL: relative to one step of the wire grammar ([field_step]: the
+   head field of a non-empty well-formed sequence is accepted by
+   ConsumeTag/ConsumeVarint/ConsumeFixed32/64/ConsumeBytes/ConsumeGroup and
+   the remainder, and a group's body as returned by ConsumeGroup, are again
+   well formed).  That step is the content of WP-A's scanner theorems for C02
+   (Wire/ScanP.v: dec_tag_complete, dec_varint_complete, dec_bytes_complete,
+   consume_group_complete for wf_fields); instantiate [wf] with wf_fields
+   after integration. *)
+Theorem C25_marshal_unknown_total_partial :
+  forall wf : nat -> list byte -> Prop,
+  (forall d bs, wf d bs -> bs <> [] -> field_step wf d bs) ->
+  forall c d bs, wf d bs -> exists out, marshal_unknown c bs = Some out.
+Proof. exact marshal_unknown_total. Qed.
+Print Assumptions C25_marshal_unknown_total_partial.
+
 (* non-vacuity / sanity: the model computes the expected literals *)
 Example C25_ex_escape :
   append_string true [x01; x22; xc3; xa9; xff; x27] =
@@ -42,4 +67,13 @@ Proof. vm_compute. reflexivity. Qed.
 Example C25_ex_parse :
   parse_string [x27; x5c; x75; x64; x38; x33; x64; x5c; x75; x64; x65; x30; x30; x5c; x31; x30; x31; x27; x20] =
   SOk ([xf0; x9f; x98; x80; x41], [x20]).
+Proof. vm_compute. reflexivity. Qed.
+(* the hypothesis of the partial theorem is satisfiable and the model renders groups *)
+Example C25_ex_unknown :
+  marshal_unknown {| ec_indent := [x20]; ec_extra := false; ec_ascii := false |}
+                  [x0b; x08; x01; x8c; x00; x15; x01; x00; x00; x00] =
+  Some [x31; x3a; x20; x7b; x0a; x20; x31; x3a; x20; x31; x0a; x7d; x0a; x32; x3a; x20; x30; x78; x31; x0a].
+Proof. vm_compute. reflexivity. Qed.
+Example C25_ex_unknown_panics_on_garbage :
+  marshal_unknown {| ec_indent := []; ec_extra := false; ec_ascii := false |} [x0c] = None.
 Proof. vm_compute. reflexivity. Qed.
